@@ -17,15 +17,19 @@ namespace Jence
 /-- `_blsr_u64`: clear the lowest set bit -/
 @[inline] def blsr (b : UInt64) : UInt64 := b &&& (b - 1)
 
+/-- one step of the binary search for the lowest set bit: if the low `k` bits (mask `m`) are all clear, drop them -/
+@[inline] def tzStage (k : Nat) (m : UInt64) (p : UInt64 × Nat) : UInt64 × Nat :=
+  if p.1 &&& m == 0 then (p.1 >>> k.toUInt64, p.2 + k) else p
+
 /-- `_tzcnt_u64`: number of trailing zero bits, 64 for 0 (binary search on the low halves) -/
 def tzcnt (b : UInt64) : Nat :=
   if b == 0 then 64 else
-  let (b, n) := if b &&& 0xFFFFFFFF == 0 then (b >>> (32 : UInt64), 32) else (b, 0)
-  let (b, n) := if b &&& 0xFFFF == 0 then (b >>> (16 : UInt64), n + 16) else (b, n)
-  let (b, n) := if b &&& 0xFF == 0 then (b >>> (8 : UInt64), n + 8) else (b, n)
-  let (b, n) := if b &&& 0xF == 0 then (b >>> (4 : UInt64), n + 4) else (b, n)
-  let (b, n) := if b &&& 0x3 == 0 then (b >>> (2 : UInt64), n + 2) else (b, n)
-  if b &&& 0x1 == 0 then n + 1 else n
+  let p := tzStage 32 0xFFFFFFFF (b, 0)
+  let p := tzStage 16 0xFFFF p
+  let p := tzStage 8 0xFF p
+  let p := tzStage 4 0xF p
+  let p := tzStage 2 0x3 p
+  if p.1 &&& 0x1 == 0 then p.2 + 1 else p.2
 
 /-- the `while !bb.is_empty() { extract_bit() }` loop: set bits in ascending order -/
 def bitsOfAux : Nat → UInt64 → List Nat → List Nat
